@@ -15,6 +15,9 @@ def plan(tier):
     pl += [(PG.reusable_resize(2, 3, 0.05), 1, A), (PG.reusable_resize(2, 1, 0.05), 1, A),
            (PG.resize_inflight(2, 3, None, 1), 1, PT), (PG.resize_inflight(2, 1, None, 2), 1, PT),
            (PG.resize_inflight(1, 2, 0.05, 1), 1, PT), (PG.reusable_resize(2, 2, None), 1, PT)]
+    EM = dict(kinds=("K",), starve="eager:parent:manager")
+    pl += [(PG.reusable_resize(2, 3, None), 1, EM), (PG.reusable_resize(1, 3, 0.05), 1, EM),
+           (PG.reusable_resize(3, 1, None), 1, EM)]
     if tier == "thorough":
         pl += [(PG.reusable_resize(2, 3, 0.05), 2, dict(kinds=("T", "K"))),
                (PG.reusable_resize(2, 1, None), 2, dict(kinds=("P", "K"))),
